@@ -155,13 +155,14 @@ var stdOrder = map[int][]string{
 
 type monC06 struct {
 	baseMon
+	irregular     map[int]string
 	seenSnap      int
 	labels        map[int]map[string][]string // hand -> id -> labels at open
 	engineChecked map[int]bool
 }
 
 func newMonC06() *monC06 {
-	return &monC06{labels: map[int]map[string][]string{}, engineChecked: map[int]bool{}}
+	return &monC06{labels: map[int]map[string][]string{}, engineChecked: map[int]bool{}, irregular: map[int]string{}}
 }
 
 func sortedCopy(x []string) []string {
@@ -170,7 +171,9 @@ func sortedCopy(x []string) []string {
 	return y
 }
 
-func (m *monC06) Quiescent(td *TD, p Pending) *Viol {
+func (m *monC06) Quiescent(td *TD, p Pending) *Viol { return unifyIrregular(m.quiescent(td, p)) }
+
+func (m *monC06) quiescent(td *TD, p Pending) *Viol {
 	for ; m.seenSnap < len(td.snaps); m.seenSnap++ {
 		s := td.snaps[m.seenSnap]
 		st := s.T.State
@@ -188,6 +191,22 @@ func (m *monC06) Quiescent(td *TD, p Pending) *Viol {
 					dealtAt[pl.Seat] = pl
 				}
 			}
+			// irregular button configuration: a dealt-in player sits strictly between the dealer seat and the SB
+			// seat, or strictly between the SB seat and the BB seat (the rotation left somebody "inside" the
+			// blinds). No labelling can satisfy the property then; every label clause of such a hand is reported
+			// under one key (see known_findings.json).
+			irregular := ""
+			if D != SB {
+				for seat := range dealtAt {
+					if strictlyBetween(n, D, SB, seat) || strictlyBetween(n, SB, BB, seat) {
+						irregular = "@dealt-in-player-between-button-seats"
+					}
+				}
+			}
+			if D == BB {
+				irregular = "@dealer-seat-is-bb-seat"
+			}
+			m.irregular[h] = irregular
 			// reference: slots clockwise from the BB seat
 			type slot struct {
 				seat int
@@ -222,7 +241,7 @@ func (m *monC06) Quiescent(td *TD, p Pending) *Viol {
 					}
 				}
 			} else {
-				return &Viol{Key: "slot-count", Detail: fmt.Sprintf("hand %d: %d position slots (dealt in %d, D%d/SB%d/BB%d)", h, len(slots), len(dealtAt), D, SB, BB)}
+				return &Viol{Key: "slot-count" + irregular, Detail: fmt.Sprintf("hand %d: %d position slots (dealt in %d, D%d/SB%d/BB%d)", h, len(slots), len(dealtAt), D, SB, BB)}
 			}
 			got := map[string][]string{}
 			used := map[string]string{}
@@ -231,27 +250,27 @@ func (m *monC06) Quiescent(td *TD, p Pending) *Viol {
 					got[pl.PlayerID] = pl.Positions
 				}
 				if !pl.IsParticipated && len(pl.Positions) > 0 {
-					return &Viol{Key: "label-on-player-not-dealt-in", Detail: fmt.Sprintf("hand %d: %s is not dealt in but labelled %v", h, pl.PlayerID, pl.Positions)}
+					return &Viol{Key: "label-on-player-not-dealt-in" + irregular, Detail: fmt.Sprintf("hand %d: %s is not dealt in but labelled %v", h, pl.PlayerID, pl.Positions)}
 				}
 				if pl.IsParticipated && len(pl.Positions) == 0 {
-					return &Viol{Key: "dealt-in-player-unlabelled", Detail: fmt.Sprintf("hand %d: %s is dealt in (seat %d) but has no label; D%d/SB%d/BB%d", h, pl.PlayerID, pl.Seat, D, SB, BB)}
+					return &Viol{Key: "dealt-in-player-unlabelled" + irregular, Detail: fmt.Sprintf("hand %d: %s is dealt in (seat %d) but has no label; D%d/SB%d/BB%d", h, pl.PlayerID, pl.Seat, D, SB, BB)}
 				}
 				for _, l := range pl.Positions {
 					if o, dup := used[l]; dup {
-						return &Viol{Key: "label-shared", Detail: fmt.Sprintf("hand %d: %s and %s are both labelled %s", h, o, pl.PlayerID, l)}
+						return &Viol{Key: "label-shared" + irregular, Detail: fmt.Sprintf("hand %d: %s and %s are both labelled %s", h, o, pl.PlayerID, l)}
 					}
 					used[l] = pl.PlayerID
 				}
 			}
 			if pl := dealtAt[BB]; pl == nil || strings.Join(pl.Positions, ",") != "bb" {
-				return &Viol{Key: "bb-seat-label", Detail: fmt.Sprintf("hand %d: BB seat %d holds %v", h, BB, describePlayer(dealtAt[BB]))}
+				return &Viol{Key: "bb-seat-label" + irregular, Detail: fmt.Sprintf("hand %d: BB seat %d holds %v", h, BB, describePlayer(dealtAt[BB]))}
 			}
 			if pl := dealtAt[SB]; pl != nil && !hasStr(pl.Positions, "sb") {
-				return &Viol{Key: "sb-seat-label", Detail: fmt.Sprintf("hand %d: dealt-in player %s in the SB seat %d is labelled %v (D%d/SB%d/BB%d)", h, pl.PlayerID, SB, pl.Positions, D, SB, BB)}
+				return &Viol{Key: "sb-seat-label" + irregular, Detail: fmt.Sprintf("hand %d: dealt-in player %s in the SB seat %d is labelled %v (D%d/SB%d/BB%d)\n%s", h, pl.PlayerID, SB, pl.Positions, D, SB, BB, describeOpen(s.T))}
 			}
 			for id, w := range want {
 				if strings.Join(sortedCopy(got[id]), ",") != strings.Join(sortedCopy(w), ",") {
-					return &Viol{Key: "label-order", Detail: fmt.Sprintf("hand %d: %s is labelled %v, the standard order for %d slots clockwise from BB gives %v (D%d/SB%d/BB%d, labels %v)", h, id, got[id], len(slots), w, D, SB, BB, got)}
+					return &Viol{Key: "label-order" + irregular, Detail: fmt.Sprintf("hand %d: %s is labelled %v, the standard order for %d slots clockwise from BB gives %v (D%d/SB%d/BB%d, labels %v)", h, id, got[id], len(slots), w, D, SB, BB, got)}
 				}
 			}
 			m.labels[h] = got
@@ -274,11 +293,8 @@ func (m *monC06) Quiescent(td *TD, p Pending) *Viol {
 					want = append(want, "dealer")
 				}
 				if strings.Join(sortedCopy(got), ",") != strings.Join(sortedCopy(want), ",") {
-					key := "engine-labels"
-					if st.CurrentDealerSeat == st.CurrentBBSeat {
-						key = "engine-labels@dealer-seat-is-bb-seat"
-					}
-					return &Viol{Key: key, Detail: fmt.Sprintf("hand %d: hand engine entry %d (%s) has positions %v, the table labels are %v", h, gi, id, got, want)}
+					key := "engine-labels" + m.irregular[h]
+					return &Viol{Key: key, Detail: fmt.Sprintf("hand %d: hand engine entry %d (%s) has positions %v, the table labels are %v\n%s", h, gi, id, got, want, describeOpen(s.T))}
 				}
 			}
 		case pt.TableStateStatus_TableGameSettled:
@@ -300,6 +316,28 @@ func (m *monC06) Quiescent(td *TD, p Pending) *Viol {
 }
 
 func (m *monC06) End(td *TD) *Viol { return m.Quiescent(td, Pending{}) }
+
+// unify: every label clause violated in a hand whose button configuration is irregular is one finding
+func unifyIrregular(v *Viol) *Viol {
+	if v == nil {
+		return nil
+	}
+	if i := strings.Index(v.Key, "@dealt-in-player-between-button-seats"); i >= 0 {
+		return &Viol{Key: "labels-in-irregular-button-configuration@dealt-in-player-between-button-seats", Detail: "[" + v.Key[:i] + "] " + v.Detail}
+	}
+	if i := strings.Index(v.Key, "@dealer-seat-is-bb-seat"); i >= 0 {
+		return &Viol{Key: "labels-in-irregular-button-configuration@dealer-seat-is-bb-seat", Detail: "[" + v.Key[:i] + "] " + v.Detail}
+	}
+	return v
+}
+
+func describeOpen(t *pt.Table) string {
+	var parts []string
+	for _, p := range t.State.PlayerStates {
+		parts = append(parts, fmt.Sprintf("%s@%d chips=%d in=%v dealt=%v %v", p.PlayerID, p.Seat, p.Bankroll, p.IsIn, p.IsParticipated, p.Positions))
+	}
+	return fmt.Sprintf("D%d/SB%d/BB%d seats=%d list=%v players: %s", t.State.CurrentDealerSeat, t.State.CurrentSBSeat, t.State.CurrentBBSeat, t.Meta.TableMaxSeatCount, t.State.GamePlayerIndexes, strings.Join(parts, "; "))
+}
 
 func describePlayer(p *pt.TablePlayerState) string {
 	if p == nil {
